@@ -65,6 +65,7 @@ class CmsDriver:
             self.ever.clear()
             self.last.clear()
             self.total = 0
+            self.reloaded = False
             self.feats.add("clear")
             ctx.op("clear")
             return self.verify("after clear")
@@ -169,6 +170,7 @@ class CmsDriver:
             new = ctx.call(self.noexc, K, filepath=p, hash_function=self.hf, **extra)
         self.obj = new
         self.last.clear()  # tracking tables are not stored in the format
+        self.reloaded = True
         self.feats.add("reload")
         ctx.op("reload", ch % 2)
         self.verify("after reload")
@@ -193,6 +195,14 @@ class CmsDriver:
         self.feats.add("join")
         ctx.op("join", adds)
         self.verify("after join")
+        # the argument stays in use: what happens to it afterwards must not reach the receiver (and vice versa)
+        sb = bytes(second)
+        mine = bytes(o)
+        second.add(self.pool[0], 3)
+        if self._o("bounds") or self._o("counter"):
+            ctx.check(self._o("bounds") or self._o("counter"), bytes(o) == mine, "adding to the ARGUMENT of an earlier join changed the receiver")
+        self.feats.add("join_then_argument_modified")
+        self.verify("after the join argument was modified")
 
     def verify(self, what):
         ctx, o = self.ctx, self.obj
@@ -251,7 +261,7 @@ class CmsDriver:
         ctx.check(name, got == want, lambda: f"{what}: meets_threshold {got} != keys whose latest estimate >= {t}: {want}")
         ctx.check(name, o.threshold == t, "threshold changed")
         for k in self.pool:
-            if self.true[k] >= t and self.qt == "min":
+            if self.true[k] >= t and self.qt == "min" and not getattr(self, "reloaded", False):
                 ctx.check(name, k in got, lambda: f"{what}: {k!r} has true count {self.true[k]} >= {t} but is not listed")
 
     def run(self):
